@@ -200,19 +200,22 @@ theorem setOne_ok {U : Nat} {o o' : Oracle} {v v' : Validator} {fd : Feed}
   · simp only [h1, Bool.not_true, Bool.false_eq_true, if_false] at h
     by_cases h2 : fd.expectedProvider = fd.provider
     · simp only [h2, ne_eq, not_true_eq_false, if_false] at h
-      by_cases h3 : fd.feedMatches = true
-      · simp only [h3, Bool.not_true, Bool.false_eq_true, if_false] at h
-        cases hv : validateOne U v fd.cfg fd.oracleTs fd.slot (maybeAdjust U fd) fd.ref with
-        | error e => simp [hv] at h
-        | ok v1 =>
-          simp only [hv] at h
-          by_cases h4 : fromPriceOk (maybeAdjust U fd) = true
-          · simp only [h4, if_true] at h
-            injection h with h; injection h with ha hb
-            subst ha; subst hb
-            exact ⟨h1, h2, h3, rfl, h4, rfl⟩
-          · simp [h4] at h
-      · simp [h3] at h
+      by_cases h3' : fd.cfg.found = true
+      · simp only [h3', Bool.not_true, Bool.false_eq_true, if_false] at h
+        by_cases h3 : fd.feedMatches = true
+        · simp only [h3, Bool.not_true, Bool.false_eq_true, if_false] at h
+          cases hv : validateOne U v fd.cfg fd.oracleTs fd.slot (maybeAdjust U fd) fd.ref with
+          | error e => simp [hv] at h
+          | ok v1 =>
+            simp only [hv] at h
+            by_cases h4 : fromPriceOk (maybeAdjust U fd) = true
+            · simp only [h4, if_true] at h
+              injection h with h; injection h with ha hb
+              subst ha; subst hb
+              exact ⟨h1, h2, h3, rfl, h4, rfl⟩
+            · simp [h4] at h
+        · simp [h3] at h
+      · simp [h3'] at h
     · simp [h2] at h
   · simp [h1] at h
 
